@@ -3,6 +3,7 @@ package rules
 import (
 	"fmt"
 	"go/token"
+	"go/types"
 	"sort"
 	"strings"
 
@@ -606,6 +607,7 @@ func (c *Ctx) err5() {
 	if rb != nil {
 		a := c.acc("ERR-5", rb, "nil-channel-only-for-ErrClosed")
 		t := c.acc("ERR-5", rb, "timer-bounded-by-ReconnectWait{Min,Max}")
+		nb := c.acc("ERR-5", rb, "no-backoff-only-for-nil-or-BigMessage")
 		for _, p := range c.Paths("ERR-5", rb) {
 			if p.End != pathx.KReturn {
 				continue
@@ -649,10 +651,68 @@ func (c *Ctx) err5() {
 				}
 			}
 			if _, isLoad := r.(*ssa.UnOp); isLoad && i < 0 {
-				continue // the package level closed channel
+				// the package level closed channel: "no backoff", for no error or a BigMessage only
+				none := false
+				for _, cm := range assumed(p, 0, -1) {
+					if pr, isP := cm.X.(*ssa.Parameter); isP && pr.Type().String() == "error" && pathx.IsNilConst(cm.Y) && cm.Op == token.EQL {
+						none = true
+					}
+					if roleKey(cm.X) == "Client.bigMessage" && pathx.IsNilConst(cm.Y) && cm.Op == token.NEQ {
+						none = true
+					}
+				}
+				if none {
+					nb.pass()
+				} else {
+					nb.fail(p, last, "ReadBackoff answers an error with the closed channel (no backoff at all) on a path that has established neither err == nil nor a parked BigMessage: the read loop spins on a failing connection")
+				}
+				continue
 			}
 			if i < 0 {
 				t.fail(p, last, "a channel is returned that nothing closes")
+				continue
+			}
+			// the timer's function closes the very channel that is returned
+			closes := false
+			if len(p.Events[i].Args) > 1 {
+				if mc, ok := p.Events[i].Args[1].(*ssa.MakeClosure); ok {
+					f := mc.Fn.(*ssa.Function)
+					for _, b := range f.Blocks {
+						for _, ins := range b.Instrs {
+							call, ok := ins.(*ssa.Call)
+							if !ok || !isBuiltin2(&call.Call, "close") {
+								continue
+							}
+							if fv, ok := call.Call.Args[0].(*ssa.UnOp); ok {
+								if v, ok := fv.X.(*ssa.FreeVar); ok {
+									for k, x := range f.FreeVars {
+										if x == v && k < len(mc.Bindings) {
+											// the binding is the cell that holds the returned channel
+											if ld, ok := r.(*ssa.UnOp); ok && ld.X == mc.Bindings[k] {
+												closes = true
+											}
+											for q := range p.Events {
+												if st := &p.Events[q]; st.Kind == pathx.KStore && st.Addr == mc.Bindings[k] && st.Val == r {
+													closes = true
+												}
+											}
+										}
+									}
+								}
+							}
+							if v, ok := call.Call.Args[0].(*ssa.FreeVar); ok {
+								for k, x := range f.FreeVars {
+									if x == v && k < len(mc.Bindings) && (mc.Bindings[k] == r || strip(mc.Bindings[k]) == strip(r)) {
+										closes = true
+									}
+								}
+							}
+						}
+					}
+				}
+			}
+			if !closes {
+				t.fail(p, i, "the timer armed by ReadBackoff does not close the channel that is returned: the read loop waits forever")
 				continue
 			}
 			d := p.Events[i].Args[0]
@@ -703,6 +763,7 @@ func (c *Ctx) err5() {
 			}
 		}
 		ramp.done(1, "the stored wait is a constant multiple of the clamped wait")
+		nb.done(1, "the closed channel is returned only behind err == nil or c.bigMessage != nil")
 		a.done(1, "nil only behind errors.Is(err, ErrClosed)")
 		t.done(2, "every returned channel is closed by a timer of bounded duration")
 	}
@@ -1091,6 +1152,86 @@ func (c *Ctx) err4Walk() {
 			t.fail(p, last, "nonNilIsAny answers true on a path without a match")
 		}
 	}
+	// every list of wrapped errors is pushed onto the stack of pending
+	// siblings: what the stack holds when its emptiness is tested derives from
+	// the Unwrap() []error result of this iteration — appended to what was
+	// pending, or taken as the stack only when nothing was pending
+	push := c.acc("ERR-4", fn, "Unwrap()[]error⇒all-siblings-pushed(append, or replace only an empty stack)")
+	for _, p := range c.Paths("ERR-4", fn) {
+		iu := p.Index(0, func(e *pathx.Event) bool {
+			return e.Kind == pathx.KCall && e.Method != nil && e.Method.Name() == "Unwrap" && strings.HasPrefix(e.Method.Type().(*types.Signature).Results().At(0).Type().String(), "[]")
+		})
+		if iu < 0 {
+			continue
+		}
+		w := p.Events[iu].Result
+		choice := phiChoices(p, fn)
+		expand := func(v ssa.Value) ssa.Value {
+			for d := 0; d < 12; d++ {
+				v = stripConv(v)
+				ph, ok := v.(*ssa.Phi)
+				if !ok || choice[ph] == nil {
+					break
+				}
+				v = choice[ph]
+			}
+			return v
+		}
+		// the stack as tested for emptiness after the push
+		var stack ssa.Value
+		for i := iu + 1; i < len(p.Events); i++ {
+			e := &p.Events[i]
+			if e.Kind != pathx.KAssume {
+				continue
+			}
+			if cm, ok := cmpOf(e.Val, e.Truth); ok && isK(cm.Y, 0) {
+				if arg, isLen := builtinCall(cm.X, "len"); isLen && arg.Type().String() == "[]error" {
+					stack = expand(arg)
+					break
+				}
+			}
+		}
+		if stack == nil {
+			continue
+		}
+		okPush := false
+		switch x := stack.(type) {
+		case *ssa.Slice:
+			if expand(x.X) == w {
+				// replaced: only an empty stack may be replaced
+				for _, cm := range assumed(p, iu, -1) {
+					if _, isPhi := stripConv(cm.X).(*ssa.Phi); isPhi && cm.X.Type().String() == "[]error" && pathx.IsNilConst(cm.Y) && cm.Op == token.EQL {
+						okPush = true
+					}
+					if arg, isLen := builtinCall(cm.X, "len"); isLen && arg.Type().String() == "[]error" && isK(cm.Y, 0) && cm.Op == token.EQL && expand(arg) != stack {
+						okPush = true
+					}
+				}
+			}
+		case *ssa.Call:
+			if bl, ok := x.Call.Value.(*ssa.Builtin); ok && bl.Name() == "append" && len(x.Call.Args) == 2 && expand(x.Call.Args[1]) == w {
+				okPush = true
+			}
+		}
+		if stack == w {
+			for _, cm := range assumed(p, iu, -1) {
+				if _, isPhi := stripConv(cm.X).(*ssa.Phi); isPhi && cm.X.Type().String() == "[]error" && pathx.IsNilConst(cm.Y) && cm.Op == token.EQL {
+					okPush = true
+				}
+			}
+		}
+		if okPush {
+			push.pass()
+		} else {
+			push.fail(p, iu, "after Unwrap() []error the stack of pending siblings is %s: the wrapped errors of this node are not all added to it (or it replaces errors still pending), so a sentinel joined behind another error is missed", Expr(stack))
+		}
+	}
+	push.done(2, "the stack is append(pending, wrapped...) or, with nothing pending, the wrapped list itself")
 	f.done(2, "every false return lies behind len(more) == 0")
 	t.done(2, "every true return lies behind err == match or Is(match)")
+}
+
+func isBuiltin2(c *ssa.CallCommon, name string) bool {
+	b, ok := c.Value.(*ssa.Builtin)
+	return ok && b.Name() == name
 }
